@@ -64,3 +64,17 @@ Proof.
   exact (proj1 (w_run_blocks compress c es f log m HB HL E)).
 Qed.
 Print Assumptions C18_sorted_or_panic.
+
+(* the converse: the order assertions never fire on a strictly ascending input — no insert and no
+   flush panics or fails (entries within the u32 length limit, fewer than 2^32 - 1 of them, a codec
+   that does not fail); so a panic of the writer means an out-of-order key *)
+From Coq Require Import Sorted.
+From Grenad.proofs Require Import SortedFacts BlockProofs WriterProgress.
+
+Theorem C18_sorted_input_never_panics : forall compress decompress c,
+  (forall b z, compress (wc_codec c) (wc_level c) b = Done z -> decompress (wc_codec c) z = Done b) ->
+  (forall b, exists z, compress (wc_codec c) (wc_level c) b = Done z) ->
+  forall es, StronglySorted blt (map fst es) -> entries_ok es -> len es + 1 <= U32_MAX -> wc_levels c < 256 ->
+  exists s lg m, w_run_gen vsink vs_wr vs_fl vs_count compress c vs_empty es = (len es, Done (s, lg, m)).
+Proof. exact w_run_progress. Qed.
+Print Assumptions C18_sorted_input_never_panics.
